@@ -70,6 +70,7 @@ void run_cases(const char* engine, const std::string& mode, uint64_t seed, long 
         body(c);
         std::cout << "# case " << engine << " " << mode << " " << seed << " " << i << "\n"
                   << c.out.str() << "# endcase nt=" << (c.nontrivial ? 1 : 0) << "\n";
+        std::cout.flush();  // a sanitizer abort in the next case must not lose the cases already completed
     }
     std::cout.flush();
 }
